@@ -23,3 +23,18 @@ pub fn filter_from_top_nibbles(v4_top: u16, v6_top: u16) -> Filter {
         ipv6_filter: BitTree { nodes: vec![TreeNode { child_offset: 1, inset: v6_top, outset: !v6_top }] },
     })
 }
+
+// --- C31 (np_misc_h): raw node access. `filter_nodes` reads the two tries as
+// (child_offset, inset, outset) triples; `filter_from_nodes` rebuilds a filter from such triples.
+pub fn filter_nodes(f: &Filter) -> (Vec<(u32, u16, u16)>, Vec<(u32, u16, u16)>) {
+    (
+        f.0.ipv4_filter.nodes.iter().map(|n| (n.child_offset, n.inset, n.outset)).collect(),
+        f.0.ipv6_filter.nodes.iter().map(|n| (n.child_offset, n.inset, n.outset)).collect(),
+    )
+}
+pub fn filter_from_nodes(v4: &[(u32, u16, u16)], v6: &[(u32, u16, u16)]) -> Filter {
+    Filter(IpFilter {
+        ipv4_filter: BitTree { nodes: v4.iter().map(|&(child_offset, inset, outset)| TreeNode { child_offset, inset, outset }).collect() },
+        ipv6_filter: BitTree { nodes: v6.iter().map(|&(child_offset, inset, outset)| TreeNode { child_offset, inset, outset }).collect() },
+    })
+}
